@@ -174,7 +174,9 @@ func (r *ref) stmt(s Stmt, caught *thrown, lvl int) completion {
 		}
 		return r.called(r.block(r.fns[s.N], nil, lvl-1))
 	case "y":
-		fmt.Fprintf(&r.trace, "T%d;", tagged(s.N))
+		if !s.quiet('b') {
+			fmt.Fprintf(&r.trace, "T%d;", tagged(s.N))
+		}
 		pending := asThrow(r.block(s.Body, caught, lvl))
 		if pending.kind == cThrow {
 			for k, cl := range s.Catches {
@@ -187,7 +189,9 @@ func (r *ref) stmt(s Stmt, caught *thrown, lvl int) completion {
 				}
 				if hit {
 					e := pending.exc
-					fmt.Fprintf(&r.trace, "C%d.%d:%s;", tagged(s.N), k, e)
+					if !cl.Q {
+						fmt.Fprintf(&r.trace, "C%d.%d:%s;", tagged(s.N), k, e)
+					}
 					r.pend++
 					pending = asThrow(r.block(cl.Body, &e, lvl))
 					r.pend--
@@ -196,7 +200,9 @@ func (r *ref) stmt(s Stmt, caught *thrown, lvl int) completion {
 			}
 		}
 		if s.HasFin {
-			fmt.Fprintf(&r.trace, "F%d;", tagged(s.N))
+			if !s.quiet('f') {
+				fmt.Fprintf(&r.trace, "F%d;", tagged(s.N))
+			}
 			if pending.kind != cNormal {
 				r.pend++
 			}
